@@ -1031,6 +1031,16 @@ def maps_expect(data):
     return out
 
 
+def maps_stats(models):
+    """how the LinuxMaps texts of a run divide: judged by the proc(5) oracle / left to the model, regions judged, odd forms"""
+    texts = [m["lxmaps"].b for m in models if m.get("lxmaps") is not None]
+    judged = [e for e in (maps_expect(b) for b in texts) if e is not None]
+    return {"texts": len(texts), "judged_by_oracle": len(judged), "regions_judged": sum(len(e) - 1 for e in judged),
+            "with_smaps_lines": sum(1 for b in texts if re.search(rb"(^|\n)[A-Z]", b)),
+            "with_slice_panic_site_line": sum(1 for b in texts if b" 00:00 0 /SYSV" in b or b" 00:00 0 [stack:" in b),
+            "with_kb_overflow_line": sum(1 for b in texts if b"Pss: 18014398509481984 kB" in b or b"Pss: 18446744073709551615 kB" in b)}
+
+
 WS = b" \t\n\x0c\r"
 
 
@@ -1881,6 +1891,7 @@ class C02(PropBase):
         models, rng = self.gen_models(tier, seed)
         dist = {"models": len(models), "with_duplicate_directory_entries": 0, "synth_cross_checked": 0, "bytes_total": 0,
                 "streams": {k: 0 for k in ST}}
+        dist["linux_maps"] = maps_stats(models)
         # pass 1 (little-endian, no extra entries) to learn where the streams are, then add duplicates
         first = self.encode_all([model_tokens(m) for m in models])
         for m, h in zip(models, first):
